@@ -201,6 +201,7 @@ func runC19(c *Ctx) {
 	R.Require("C19.dispatch", 6)
 	R.Require("C19.marshal", 1)
 	R.Require("C19.client", 2)
+	checkHandlersKeepNoState(c)
 	fns := P.ModuleFuncs("http")
 	for _, f := range fns {
 		R.Funcs[core.QualName(f)] = true
